@@ -13,7 +13,9 @@ HISTORY_RULE = ("rapid draws whole histories (1-25 steps quick, 1-60 thorough) o
                 "routes/recipients/fee lists/denoms/amount classes incl. every bit length up to 256, other receiver spellings, mutated and garbage "
                 "memos, packet data in JSON spellings on which decoders disagree, Hyperlane routes naming another denomination's token, payloads "
                 "naming the action the application registers no controller for), admin "
-                "messages and environment steps (direct deposits, re-escrow, FTF pause/blacklist, CCTP burn limit), executed on a "
+                "messages and environment steps (direct deposits, re-escrow, FTF pause/blacklist, CCTP burn limit, CCTP burn/message pauses, Hyperlane "
+                "router unenrol/enrol), recipients incl. 32-byte and 2-byte addresses, denominations incl. one of the maximum length 128 and one using "
+                "every allowed character class; executed on a "
                 "branch of the real SimApp; the oracle runs after every packet step. ")
 
 PROPERTIES = {
@@ -27,8 +29,9 @@ PROPERTIES = {
     "C02": {
         "level": "exploration",
         "rule": HISTORY_RULE + "Non-trivial = a successful orbiter transfer, whose whole-ledger delta (all accounts and total supply) "
-                "is compared with the reference model's expected delta; distinct by (route, denom, amount class, recipient, fee "
-                "count, dust present).",
+                "is compared with the reference model's expected delta; model-free clause for EVERY successful packet to the orbiter account, "
+                "whatever its memo: per-denom deltas sum to the supply delta and the orbiter account has not gained anything. "
+                "Distinct by (route, denom, amount class, recipient, fee count, dust present).",
         "assumptions": COMMON_ASSUMPTIONS,
         "tests": [{"test": "TestC02History", "quick": 400, "thorough": 192000}],
     },
@@ -41,7 +44,9 @@ PROPERTIES = {
                 "completed; then EVERY single site and EVERY ordered pair of sites is failed in turn (exhaustive per shape) and the ack "
                 "must be an error ack. PROD world: 13 naturally occurring failure causes (FTF blacklist/pause, CCTP burn limit/unknown "
                 "domain/burning paused, Hyperlane unknown domain/token/other-denom token, blocked recipient, short escrow, receive disabled): "
-                "error ack, or a success whose whole-ledger delta is exactly the model's. Non-trivial = a faulted run whose fault fired / a "
+                "error ack, or a success whose whole-ledger delta is exactly the model's. Every call site is also made to fail by PANICKING, before "
+                "the real call and after it completed: the receive path may abort or return an error ack, never a success. "
+                "Non-trivial = a faulted run whose fault fired / a "
                 "natural failure; distinct by (shape, fault tuple).",
         "assumptions": COMMON_ASSUMPTIONS + ["the LAB world duplicates the wiring of depinject.go (the wiring itself is exercised by the PROD-world checks)",
                                              "statistics failures are the one documented exception and are not a fault site"],
@@ -99,7 +104,8 @@ PROPERTIES = {
                 "in order, the reference model's fold of the running coin; the recorded bridge request carries exactly the final coin; whole-ledger "
                 "delta and the two statistics entries equal the model; a repeated identifier => error ack with NO action call executed; a fee list "
                 "the statement refuses at ANY position of the list, or a paused action anywhere in it => error ack (never 'the remaining actions "
-                "were skipped'). "
+                "were skipped'). A list the model accepts may be refused only when a recorded dependency call failed (ICS-20, bank, swap venue, "
+                "bridge, event manager); otherwise the module itself refused a list it must apply. "
                 "Non-trivial = >= 2 actions or a denomination change or a repeated identifier; distinct by case.",
         "assumptions": COMMON_ASSUMPTIONS + ["the swap controller is the harness's own (the chain registers none); LAB never deposits its output denom on the orbiter account"],
         "tests": [{"test": "TestC06Orders", "quick": 1500, "thorough": 600000}],
@@ -253,7 +259,7 @@ PROPERTIES["C20"] = {
             "CCTP/Hyperlane the string equals FormatUint(v,10) for some v < 2^32 and equals the CounterpartyID() of the attributes for v; "
             "every canonical decimal is accepted; genesis validation agrees. Paths oracle (PROD): a non-canonical string is refused by "
             "genesis validation (forwarder pause list AND dispatcher amount/count records, source and destination role), PauseCrossChains and "
-            "IsCrossChainPaused; after a successful pause of a canonical id a valid probe transfer to "
+            "IsCrossChainPaused, each also in a state where the protocol is paused as a whole; after a successful pause of a canonical id a valid probe transfer to "
             "the domain it denotes is refused. Non-trivial = an accepted CCTP/Hyperlane string or a coupled probe; distinct by (protocol, string).",
     "assumptions": COMMON_ASSUMPTIONS,
     "tests": [
@@ -322,6 +328,7 @@ PROPERTIES["C10"] = {
             "denotes is derived independently (bech32 address of this chain = itself, otherwise sha256(name)[:20]) and the same matrix is run: "
             "that account succeeds with valid content, every other signer (the default simapp authority, the orbiter/gov/upgrade module accounts, "
             "the raw configuration string, users, empty) is refused with all stores unchanged. "
+            "The valid bodies include the largest batches the messages take (100 and 99 identifiers; the prepared state has 100 CCTP domains paused). "
             "Non-trivial = a case with a valid body; distinct by (configuration, RPC, signer, body).",
     "assumptions": COMMON_ASSUMPTIONS + ["the positive half (authority + valid body succeeds) covers the known messages; ReplaceDepositForBurn's positive half is C05's real replacement",
                                          "the authority written in another bech32 spelling is a don't-care"],
